@@ -585,6 +585,331 @@ def drain_of_map(tree: ast.Module, unit_path: str = '') -> int:
     return count
 
 
+def rename_single_use_defs(tree: ast.Module) -> int:
+    """`def _impl(...): ...` followed in the same block by `name = _impl`, the only use of `_impl`  ->  `def name(...): ...`
+    (two differently named variants bound to one name under an if/else become two definitions of that name)."""
+    count = 0
+    for fn in [n for n in ast.walk(tree) if isinstance(n, _FN)]:
+        loads: Dict[str, int] = {}
+        for n in ast.walk(fn):
+            if isinstance(n, ast.Name) and isinstance(n.ctx, ast.Load):
+                loads[n.id] = loads.get(n.id, 0) + 1
+        bound = _bound_names(fn)
+        removed: Set[str] = set()
+        for node in ast.walk(fn):
+            for field in ('body', 'orelse', 'finalbody'):
+                body = getattr(node, field, None)
+                if not isinstance(body, list):
+                    continue
+                i = 0
+                while i < len(body):
+                    st = body[i]
+                    if isinstance(st, _FN) and bound.get(st.name, 0) == 1 and loads.get(st.name, 0) == 1 and not st.decorator_list:
+                        for j in range(i + 1, len(body)):
+                            a = body[j]
+                            if isinstance(a, ast.Assign) and len(a.targets) == 1 and isinstance(a.targets[0], ast.Name) \
+                                    and isinstance(a.value, ast.Name) and a.value.id == st.name:
+                                new = a.targets[0].id
+                                # the new name must not be read between the definition and the assignment, nor inside the function itself
+                                between = body[i + 1:j]
+                                if any(isinstance(x, ast.Name) and x.id == new for b_ in between + [st] for x in ast.walk(b_)):
+                                    break
+                                removed.add(st.name)
+                                st.name = new
+                                del body[j]
+                                count += 1
+                                break
+                            if any(isinstance(x, ast.Name) and x.id == st.name for x in ast.walk(a)):
+                                break
+                    i += 1
+        if removed:
+            fn._removed_locals = set(getattr(fn, '_removed_locals', set())) | removed  # type: ignore[attr-defined]
+    return count
+
+
+def loops_to_comprehensions(tree: ast.Module) -> int:
+    """`xs = []` / `d = {}` immediately followed by `for T in SRC:` whose body is nothing but `xs.append(E)` / `d[K] = V`
+    statements over pure expressions of the loop targets  ->  `xs = [E for T in SRC]`, `d = {K: V for T in SRC}`.
+    SRC must be re-iterable and not changed by iterating: a parameter annotated as a list / sequence / tuple / dict, or a local
+    bound to a list display, a list comprehension or `list(...)`."""
+    count = 0
+    set_alias_parents(tree)
+
+    def pure(e: ast.AST) -> bool:
+        for x in ast.walk(e):
+            if isinstance(x, (ast.Call, ast.Await, ast.Yield, ast.YieldFrom, ast.NamedExpr, ast.Lambda, ast.ListComp, ast.DictComp,
+                              ast.SetComp, ast.GeneratorExp)):
+                return False
+        return True
+    for fn in [n for n in ast.walk(tree) if isinstance(n, _FN)]:
+        ann = {}
+        a = fn.args
+        for p_ in a.posonlyargs + a.args + a.kwonlyargs:
+            if p_.annotation is not None:
+                ann[p_.arg] = ast.unparse(p_.annotation).strip('\'"')
+        bound = _bound_names(fn)
+
+        def reiterable(src: ast.AST) -> bool:
+            if not isinstance(src, ast.Name):
+                return False
+            if src.id in ann and bound.get(src.id, 0) == 1:
+                head = ann[src.id].split('[')[0].split('.')[-1]
+                return head in ('List', 'list', 'Sequence', 'Tuple', 'tuple', 'Dict', 'dict', 'Set', 'set', 'FrozenSet', 'frozenset', 'Collection', 'Mapping')
+            if bound.get(src.id, 0) == 1:
+                for n in _own(fn):
+                    if isinstance(n, ast.Assign) and len(n.targets) == 1 and isinstance(n.targets[0], ast.Name) and n.targets[0].id == src.id:
+                        v = n.value
+                        return isinstance(v, (ast.List, ast.ListComp, ast.Tuple)) or (
+                            isinstance(v, ast.Call) and isinstance(v.func, ast.Name) and v.func.id in ('list', 'tuple', 'sorted'))
+            return False
+        for node in ast.walk(fn):
+            for field in ('body', 'orelse', 'finalbody'):
+                body = getattr(node, field, None)
+                if not isinstance(body, list):
+                    continue
+                i = 0
+                while i < len(body):
+                    st = body[i]
+                    # `d = {}` ; `for x in IT: k, v = f(x); d[k] = v`  ->  `d = dict(map(f, IT))`  (one pass over IT, same order)
+                    if isinstance(st, ast.For) and not st.orelse and isinstance(st.target, ast.Name) and len(st.body) == 2 and i > 0:
+                        b0, b1 = st.body
+                        pv = body[i - 1]
+                        ptg = pv.targets[0] if isinstance(pv, ast.Assign) and len(pv.targets) == 1 else getattr(pv, 'target', None) if isinstance(pv, ast.AnnAssign) else None
+                        if isinstance(b0, ast.Assign) and len(b0.targets) == 1 and isinstance(b0.targets[0], ast.Tuple) and len(b0.targets[0].elts) == 2 \
+                                and all(isinstance(t_, ast.Name) for t_ in b0.targets[0].elts) and isinstance(b0.value, ast.Call) \
+                                and isinstance(b0.value.func, ast.Name) and len(b0.value.args) == 1 and not b0.value.keywords \
+                                and isinstance(b0.value.args[0], ast.Name) and b0.value.args[0].id == st.target.id \
+                                and isinstance(b1, ast.Assign) and len(b1.targets) == 1 and isinstance(b1.targets[0], ast.Subscript) \
+                                and isinstance(b1.targets[0].value, ast.Name) and isinstance(b1.targets[0].slice, ast.Name) and isinstance(b1.value, ast.Name) \
+                                and [b1.targets[0].slice.id, b1.value.id] == [t_.id for t_ in b0.targets[0].elts] \
+                                and isinstance(ptg, ast.Name) and ptg.id == b1.targets[0].value.id and isinstance(getattr(pv, 'value', None), ast.Dict) \
+                                and not pv.value.keys:
+                            tmp = {st.target.id} | {t_.id for t_ in b0.targets[0].elts}
+                            def _reads(scope_node, names) -> list:
+                                out_ = []
+                                for y in _own(scope_node):
+                                    if isinstance(y, ast.Name) and y.id in names and isinstance(y.ctx, ast.Load):
+                                        out_.append(y)
+                                    elif isinstance(y, _FN):
+                                        inner_ = names - set(_bound_names(y))       # names the nested function binds itself are its own
+                                        if inner_:
+                                            out_ += _reads(y, inner_)
+                                    elif isinstance(y, ast.Lambda):
+                                        la_ = y.args
+                                        inner_ = names - {p_.arg for p_ in la_.posonlyargs + la_.args + la_.kwonlyargs}
+                                        out_ += [z for z in ast.walk(y.body) if isinstance(z, ast.Name) and z.id in inner_ and isinstance(z.ctx, ast.Load)]
+                                return out_
+                            later = [y for y in _reads(fn, tmp) if not any(y is z for z in ast.walk(st))]
+                            if not later and b0.value.func.id not in tmp and ptg.id not in tmp:
+                                call = ast.Call(func=ast.Name(id='dict', ctx=ast.Load()), args=[
+                                    ast.Call(func=ast.Name(id='map', ctx=ast.Load()), args=[b0.value.func, st.iter], keywords=[])], keywords=[])
+                                new = ast.Assign(targets=[ast.Name(id=ptg.id, ctx=ast.Store())], value=call)
+                                for y in ast.walk(new):
+                                    if not hasattr(y, 'lineno'):
+                                        ast.copy_location(y, st)
+                                ast.copy_location(new, pv)
+                                body[i - 1] = new
+                                del body[i]
+                                fn._removed_locals = set(getattr(fn, '_removed_locals', set())) | tmp  # type: ignore[attr-defined]
+                                count += 1
+                                continue
+                    if not (isinstance(st, ast.For) and not st.orelse and reiterable(st.iter)):
+                        i += 1
+                        continue
+                    tnames = {x.id for x in ast.walk(st.target) if isinstance(x, ast.Name)}
+                    acc = {}      # accumulator name -> ('list', elt) | ('dict', key, value)
+                    ok = bool(st.body)
+                    for b in st.body:
+                        if isinstance(b, ast.Expr) and isinstance(b.value, ast.Call) and isinstance(b.value.func, ast.Attribute) \
+                                and b.value.func.attr == 'append' and isinstance(b.value.func.value, ast.Name) and len(b.value.args) == 1 \
+                                and not b.value.keywords and pure(b.value.args[0]) and b.value.func.value.id not in acc:
+                            acc[b.value.func.value.id] = ('list', b.value.args[0])
+                        elif isinstance(b, ast.Assign) and len(b.targets) == 1 and isinstance(b.targets[0], ast.Subscript) \
+                                and isinstance(b.targets[0].value, ast.Name) and pure(b.targets[0].slice) and pure(b.value) \
+                                and b.targets[0].value.id not in acc:
+                            acc[b.targets[0].value.id] = ('dict', b.targets[0].slice, b.value)
+                        else:
+                            ok = False
+                            break
+                    if not ok or not acc or (set(acc) & tnames):
+                        i += 1
+                        continue
+                    # each accumulator is initialised empty in the statements right before the loop, and nothing in the
+                    # expressions reads an accumulator
+                    k = i - 1
+                    inits = {}
+                    while k >= 0 and len(inits) < len(acc):
+                        p_ = body[k]
+                        tg = p_.targets[0] if isinstance(p_, ast.Assign) and len(p_.targets) == 1 else getattr(p_, 'target', None) if isinstance(p_, ast.AnnAssign) else None
+                        v = getattr(p_, 'value', None)
+                        if isinstance(tg, ast.Name) and tg.id in acc and tg.id not in inits and (
+                                (acc[tg.id][0] == 'list' and isinstance(v, ast.List) and not v.elts) or
+                                (acc[tg.id][0] == 'dict' and isinstance(v, ast.Dict) and not v.keys)):
+                            inits[tg.id] = k
+                            k -= 1
+                            continue
+                        break
+                    reads = {x.id for spec in acc.values() for e_ in spec[1:] for x in ast.walk(e_) if isinstance(x, ast.Name)}
+                    if len(inits) != len(acc) or (reads & set(acc)) or (reads & {st.iter.id}):
+                        i += 1
+                        continue
+                    # loop variables must not be read after the loop
+                    def rebound_around(y: ast.Name) -> bool:
+                        """the read sits in the body of a later loop / handler / comprehension that binds the name itself"""
+                        a_ = getattr(y, '_alias_parent', None)
+                        while a_ is not None and a_ is not fn:
+                            if isinstance(a_, (ast.For, ast.AsyncFor)) and any(isinstance(t_, ast.Name) and t_.id == y.id for t_ in ast.walk(a_.target)) \
+                                    and not any(y is z for z in ast.walk(a_.iter)):
+                                return True
+                            if isinstance(a_, ast.comprehension):
+                                return False
+                            if isinstance(a_, (ast.ListComp, ast.SetComp, ast.DictComp, ast.GeneratorExp)) and any(
+                                    isinstance(t_, ast.Name) and t_.id == y.id for g_ in a_.generators for t_ in ast.walk(g_.target)):
+                                return True
+                            if isinstance(a_, ast.ExceptHandler) and a_.name == y.id:
+                                return True
+                            a_ = getattr(a_, '_alias_parent', None)
+                        # ... or an unconditional assignment earlier in one of the blocks that enclose the read re-binds it first
+                        node_ = y
+                        while node_ is not None and node_ is not fn:
+                            par_ = getattr(node_, '_alias_parent', None)
+                            for fld_ in ('body', 'orelse', 'finalbody'):
+                                blk = getattr(par_, fld_, None)
+                                if isinstance(blk, list) and any(node_ is b_ for b_ in blk):
+                                    for b_ in blk:
+                                        if b_ is node_:
+                                            break
+                                        if b_ is st:
+                                            continue
+                                        if getattr(b_, 'lineno', 0) > getattr(st, 'end_lineno', st.lineno) and isinstance(b_, (ast.Assign, ast.AnnAssign)) \
+                                                and getattr(b_, 'value', None) is not None and any(
+                                                    isinstance(t_, ast.Name) and t_.id == y.id
+                                                    for tg_ in (b_.targets if isinstance(b_, ast.Assign) else [b_.target]) for t_ in ast.walk(tg_)) \
+                                                and not any(isinstance(z, ast.Name) and z.id == y.id and isinstance(z.ctx, ast.Load) for z in ast.walk(b_.value)):
+                                            return True
+                            node_ = par_
+                        return False
+                    used_later = any(isinstance(y, ast.Name) and y.id in tnames and isinstance(y.ctx, ast.Load)
+                                     and not any(y is z for z in ast.walk(st)) and not rebound_around(y) for y in ast.walk(fn)
+                                     if getattr(y, 'lineno', 0) > getattr(st, 'end_lineno', st.lineno))
+                    if used_later:
+                        i += 1
+                        continue
+                    for nm, idx in inits.items():
+                        spec = acc[nm]
+                        gen = ast.comprehension(target=_clone_expr(st.target), iter=_clone_expr(st.iter), ifs=[], is_async=0)
+                        if spec[0] == 'list':
+                            comp = ast.ListComp(elt=spec[1], generators=[gen])
+                        else:
+                            comp = ast.DictComp(key=spec[1], value=spec[2], generators=[gen])
+                        new = ast.Assign(targets=[ast.Name(id=nm, ctx=ast.Store())], value=comp)
+                        for y in ast.walk(new):
+                            if not hasattr(y, 'lineno'):
+                                ast.copy_location(y, body[idx])
+                        ast.copy_location(new, body[idx])
+                        body[idx] = new
+                    del body[i]
+                    count += 1
+    return count
+
+
+def loop_to_extend_map(tree: ast.Module) -> int:
+    """`for x in IT: L.append(f(x))` (nothing else in the body, no else clause, x used only as that argument, f and L plain
+    names / attribute paths not involving x)  ->  `L.extend(map(f, IT))`: the same calls and appends in the same order."""
+    count = 0
+    for fn in [n for n in ast.walk(tree) if isinstance(n, _FN)]:
+        for node in ast.walk(fn):
+            for field in ('body', 'orelse', 'finalbody'):
+                body = getattr(node, field, None)
+                if not isinstance(body, list):
+                    continue
+                for i, st in enumerate(body):
+                    if not (isinstance(st, ast.For) and not st.orelse and isinstance(st.target, ast.Name) and len(st.body) == 1):
+                        continue
+                    b = st.body[0]
+                    if not (isinstance(b, ast.Expr) and isinstance(b.value, ast.Call) and isinstance(b.value.func, ast.Attribute)
+                            and b.value.func.attr == 'append' and len(b.value.args) == 1 and not b.value.keywords):
+                        continue
+                    c = b.value.args[0]
+                    x = st.target.id
+                    if isinstance(c, ast.Name) and c.id == x and not any(isinstance(y, ast.Name) and y.id == x for y in ast.walk(b.value.func.value)):
+                        # `for x in IT: L.append(x)`  ->  `L.extend(IT)`
+                        later = [y for y in ast.walk(fn) if isinstance(y, ast.Name) and y.id == x and isinstance(y.ctx, ast.Load) and y is not c]
+                        if later:
+                            continue
+                        e = ast.Expr(value=ast.Call(func=ast.Attribute(value=b.value.func.value, attr='extend', ctx=ast.Load()), args=[st.iter], keywords=[]))
+                        for y in ast.walk(e):
+                            if not hasattr(y, 'lineno'):
+                                ast.copy_location(y, st)
+                        ast.copy_location(e, st)
+                        ast.copy_location(e.value, st)
+                        body[i] = e
+                        fn._removed_locals = set(getattr(fn, '_removed_locals', set())) | {x}  # type: ignore[attr-defined]
+                        count += 1
+                        continue
+                    if not (isinstance(c, ast.Call) and len(c.args) == 1 and not c.keywords and isinstance(c.args[0], ast.Name) and c.args[0].id == x
+                            and isinstance(c.func, (ast.Name, ast.Attribute))):
+                        continue
+                    if any(isinstance(y, ast.Name) and y.id == x for y in ast.walk(c.func)) or \
+                            any(isinstance(y, ast.Name) and y.id == x for y in ast.walk(b.value.func.value)):
+                        continue
+                    # the loop variable must not be read after the loop (it would keep its last value)
+                    later = [y for s2 in ast.walk(fn) for y in [s2] if isinstance(y, ast.Name) and y.id == x and isinstance(y.ctx, ast.Load)
+                             and y is not c.args[0]]
+                    if later:
+                        continue
+                    m = ast.Call(func=ast.Name(id='map', ctx=ast.Load()), args=[c.func, st.iter], keywords=[])
+                    e = ast.Expr(value=ast.Call(func=ast.Attribute(value=b.value.func.value, attr='extend', ctx=ast.Load()), args=[m], keywords=[]))
+                    for y in ast.walk(e):
+                        if not hasattr(y, 'lineno'):
+                            ast.copy_location(y, st)
+                    ast.copy_location(e, st)
+                    ast.copy_location(e.value, st)
+                    body[i] = e
+                    fn._removed_locals = set(getattr(fn, '_removed_locals', set())) | {x}  # type: ignore[attr-defined]
+                    count += 1
+    return count
+
+
+def drop_casts(tree: ast.Module) -> int:
+    """`typing.cast(T, e)` is `e` at run time (the type argument - usually a name or a string - is not evaluated for effect)."""
+    names: Set[str] = set()       # local names of typing.cast
+    mods: Set[str] = set()        # local names of the typing module
+    for st in ast.walk(tree):
+        if isinstance(st, ast.ImportFrom) and st.module in ('typing', 'typing_extensions') and not st.level:
+            for al in st.names:
+                if al.name == 'cast':
+                    names.add(al.asname or al.name)
+        elif isinstance(st, ast.Import):
+            for al in st.names:
+                if al.name in ('typing', 'typing_extensions'):
+                    mods.add(al.asname or al.name)
+    if not names and not mods:
+        return 0
+    # a local re-binding of the name would make it something else
+    for n in ast.walk(tree):
+        if isinstance(n, ast.Name) and isinstance(n.ctx, (ast.Store, ast.Del)) and n.id in names | mods:
+            names.discard(n.id)
+            mods.discard(n.id)
+        elif isinstance(n, ast.arg) and n.arg in names | mods:
+            names.discard(n.arg)
+            mods.discard(n.arg)
+    count = [0]
+
+    class R(ast.NodeTransformer):
+        def visit_Call(self, node: ast.Call):
+            self.generic_visit(node)
+            f = node.func
+            is_cast = (isinstance(f, ast.Name) and f.id in names) or (
+                isinstance(f, ast.Attribute) and f.attr == 'cast' and isinstance(f.value, ast.Name) and f.value.id in mods)
+            if is_cast and len(node.args) == 2 and not node.keywords and not any(isinstance(a, ast.Starred) for a in node.args):
+                count[0] += 1
+                return node.args[1]
+            return node
+    R().visit(tree)
+    return count[0]
+
+
 def drop_annotations(tree: ast.Module) -> int:
     """`target: T = value` -> `target = value` (the annotation of an assignment has no run-time effect on the
     value or on the scope of the name); bare declarations `x: T` stay."""
